@@ -3,11 +3,13 @@ use qv::sup::{self, CheckMeta, Report, Tier, WorkerCtx};
 fn meta_for(check: &str, tier: Tier) -> Option<CheckMeta> {
     Some(match check {
         "C01" => qv::c01::meta("C01", tier),
+        "C02" => qv::c02::meta(tier),
         "C03" => qv::c01::meta("C03", tier),
         "C09" => qv::c09::meta(tier),
         "C12" => qv::c12::meta(tier),
         "C13" => qv::c13::meta(tier),
         "C14" => qv::c14::meta(tier),
+        "C16" => qv::c16::meta(tier),
         _ => return None,
     })
 }
@@ -15,11 +17,13 @@ fn meta_for(check: &str, tier: Tier) -> Option<CheckMeta> {
 fn worker_for(ctx: &WorkerCtx) -> Report {
     match ctx.check.as_str() {
         "C01" => qv::c01::worker(ctx, "C01"),
+        "C02" => qv::c02::worker(ctx),
         "C03" => qv::c01::worker(ctx, "C03"),
         "C09" => qv::c09::worker(ctx),
         "C12" => qv::c12::worker(ctx),
         "C13" => qv::c13::worker(ctx),
         "C14" => qv::c14::worker(ctx),
+        "C16" => qv::c16::worker(ctx),
         other => panic!("unknown check {other}"),
     }
 }
